@@ -201,7 +201,9 @@ func shapeOf(t string) string {
 
 // ---------------------------------------------------------------- C12
 
-var illegalRunes = []string{"@", "#", "$", "~", "!", "?", "\"", "^", "`", "\x00", "é", "\\ "}
+// the last five are characters Unicode calls spaces but the language does not: they are
+// outside its alphabet like any other illegal character
+var illegalRunes = []string{"@", "#", "$", "~", "!", "?", "\"", "^", "`", "\x00", "é", "\\ ", "\f", "\u0085", "\u00a0", "\u2028", "\u3000"}
 var closers = []string{")", "]", "}"}
 var cutAfter = []string{" = ", " : ", "<- ", ", ", "new ", "recv ", "case ", "split ", "shift ", "wait ", "drop ", "print ", "fwd ", "close ", "send ", "type ", "let ", "exec "}
 
